@@ -196,6 +196,11 @@ class Switch(Generic[R], GenerativeFunction[R]):
         self._check_args_match_branches(branch_args)
         idx = _clamp_index(idx, len(self.branches))
 
+        if isinstance(idx, int):
+            # With a static index a Switch trace exposes only the selected
+            # branch's choices, so only that branch can be assessed.
+            return self.branches[idx].assess(sample, branch_args[idx])
+
         fs = list(f.assess for f in self.branches)
         f_args = list((sample, args) for args in branch_args)
 
